@@ -11,9 +11,13 @@ Proof. split; cbn; [auto|discriminate]. Qed.
 
 Definition core_ok (P : lparams) : bool :=
   close_checks_closed_first P && close_sets_closed_before_io P && close_cleanup_in_finally P && close_swallows_eof P
-  && cleanup_hook_once_guard P.
+  && cleanup_hook_once_guard P && cleanup_clears_in_finally P.
 
-Ltac unpack H := unfold core_ok in H; repeat (apply andb_true_iff in H as [H ?]).
+Lemma core_ok_spec P : core_ok P = true ->
+  close_checks_closed_first P = true /\ close_sets_closed_before_io P = true /\ close_cleanup_in_finally P = true
+  /\ close_swallows_eof P = true /\ cleanup_hook_once_guard P = true /\ cleanup_clears_in_finally P = true.
+Proof. unfold core_ok. intros H. repeat (apply andb_true_iff in H as [H ?]). repeat split; assumption. Qed.
+Ltac unpack H := destruct (core_ok_spec _ H) as (Ka & Kb & Kc & Kd & Ke & Kf).
 
 Lemma inv_cases s : Inv s -> (has_root s = true /\ hooks s = 0 /\ closed s = false) \/ ended_clean s.
 Proof.
@@ -24,58 +28,58 @@ Lemma clean_inv s : ended_clean s -> Inv s.
 Proof. intros (A & B & C & D). split; intros X; [congruence|auto]. Qed.
 
 (* close(): on an untouched side it ends clean whatever the write does; on an ended side it is the identity *)
-Lemma do_close_spec P w s : core_ok P = true -> Inv s -> ended_clean (fst (do_close P w s)).
+Lemma do_close_spec P hr w s : core_ok P = true -> Inv s -> ended_clean (fst (do_close P hr w s)).
 Proof.
-  intros HP I. pose proof HP as HP'. unpack HP'. unfold do_close. rewrite HP', H2, H1.
+  intros HP I. unpack HP. unfold do_close. rewrite Ka, Kb, Kc, Kd.
   destruct (inv_cases s I) as [(Hr & Hh & Hc)|C].
-  - rewrite Hc. cbn [andb]. unfold cleanup. cbn. rewrite Hr. cbn. rewrite Hh. repeat split.
+  - rewrite Hc. cbn [andb]. unfold cleanup. cbn. rewrite Hr, Kf. cbn. rewrite andb_false_r. cbn. rewrite Hh. repeat split.
   - destruct C as (Hc & Hh & Hr & Ho). rewrite Hc. cbn. repeat split; auto.
 Qed.
-Theorem close_idempotent P w s : close_checks_closed_first P = true -> closed s = true -> do_close P w s = (s, RNone).
+Theorem close_idempotent P hr w s : close_checks_closed_first P = true -> closed s = true -> do_close P hr w s = (s, RNone).
 Proof. intros H Hc. unfold do_close. now rewrite H, Hc. Qed.
 
 Lemma chan_closed_inv s : Inv s -> Inv {| closed := closed s; hooks := hooks s; has_root := has_root s; chan_open := false |}.
 Proof. intros [A B]. split; cbn; [exact A|]. intros X. destruct (B X) as (U & V & W). auto. Qed.
 
-Lemma step_inv P e s : core_ok P = true -> Inv s -> Inv (fst (step P e s)).
+Lemma step_inv P hr e s : core_ok P = true -> Inv s -> Inv (fst (step P hr e s)).
 Proof.
-  intros HP I. pose proof HP as HP'. unpack HP'.
+  intros HP I. unpack HP.
   destruct e as [w| |c|c]; cbn [step].
   - apply clean_inv. now apply do_close_spec.
   - destruct (inv_cases s I) as [(Hr & Hh & Hc)|C].
-    + rewrite Hr. unfold cleanup. rewrite Hc, Hr. cbn. rewrite Hh. apply clean_inv. repeat split.
+    + rewrite Hr. unfold cleanup. rewrite Hc, Hr, Kf. cbn. rewrite andb_false_r. cbn. rewrite Hh. apply clean_inv. repeat split.
     + destruct C as (Hc & Hh & Hr & Ho). rewrite Hr. exact I.
   - set (s0 := {| closed := closed s; hooks := hooks s; has_root := has_root s; chan_open := false |}).
     assert (I0 : Inv s0) by (apply chan_closed_inv; exact I).
     destruct (serve_read_eof_closes P).
-    + destruct (do_close P WEof s0) as [s1 r] eqn:E.
+    + destruct (do_close P hr WEof s0) as [s1 r] eqn:E.
       assert (I1 : Inv s1) by (change s1 with (fst (s1, r)); rewrite <- E; apply clean_inv; now apply do_close_spec).
       destruct c; cbn [fst]; [exact I1|]. destruct (serve_all_finally_closes P); cbn [fst]; [apply clean_inv; now apply do_close_spec|exact I1].
     + destruct c; cbn [fst]; [exact I0|]. destruct (serve_all_finally_closes P); cbn [fst]; [apply clean_inv; now apply do_close_spec|exact I0].
   - set (s0 := {| closed := closed s; hooks := hooks s; has_root := has_root s; chan_open := false |}).
     assert (I0 : Inv s0) by (apply chan_closed_inv; exact I).
     destruct (serve_dispatch_eof_closes P).
-    + destruct (do_close P WEof s0) as [s1 r] eqn:E.
+    + destruct (do_close P hr WEof s0) as [s1 r] eqn:E.
       assert (I1 : Inv s1) by (change s1 with (fst (s1, r)); rewrite <- E; apply clean_inv; now apply do_close_spec).
       destruct c; cbn [fst]; [exact I1|]. destruct (serve_all_finally_closes P); cbn [fst]; [apply clean_inv; now apply do_close_spec|exact I1].
     + destruct c; cbn [fst]; [exact I0|]. destruct (serve_all_finally_closes P); cbn [fst]; [apply clean_inv; now apply do_close_spec|exact I0].
 Qed.
 
-Theorem run_inv P es : core_ok P = true -> forall s, Inv s -> Inv (runs P es s).
+Theorem run_inv P hr es : core_ok P = true -> forall s, Inv s -> Inv (runs P hr es s).
 Proof.
   intros HP. induction es as [|e t IH]; intros s I; cbn; [exact I|]. apply IH. now apply step_inv.
 Qed.
 
 (* the hook never runs twice, whatever happens *)
-Theorem hooks_at_most_once P es : core_ok P = true -> hooks (runs P es fresh) <= 1.
+Theorem hooks_at_most_once P hr es : core_ok P = true -> hooks (runs P hr es fresh) <= 1.
 Proof.
-  intros HP. destruct (inv_cases _ (run_inv P es HP fresh inv_fresh)) as [(_ & -> & _)|(_ & -> & _)]; lia.
+  intros HP. destruct (inv_cases _ (run_inv P hr es HP fresh inv_fresh)) as [(_ & -> & _)|(_ & -> & _)]; lia.
 Qed.
 
 (* a side never reports closed before its hook has run and its tables are cleared *)
-Theorem closed_means_clean P es : core_ok P = true -> closed (runs P es fresh) = true -> ended_clean (runs P es fresh).
+Theorem closed_means_clean P hr es : core_ok P = true -> closed (runs P hr es fresh) = true -> ended_clean (runs P hr es fresh).
 Proof.
-  intros HP Hc. destruct (inv_cases _ (run_inv P es HP fresh inv_fresh)) as [(_ & _ & X)|C]; [congruence|exact C].
+  intros HP Hc. destruct (inv_cases _ (run_inv P hr es HP fresh inv_fresh)) as [(_ & _ & X)|C]; [congruence|exact C].
 Qed.
 
 Definition must_end (P : lparams) (e : entry) : bool :=
@@ -86,25 +90,25 @@ Definition must_end (P : lparams) (e : entry) : bool :=
   end.
 
 (* after any history, an entry point that closes / is told to close / meets the failure while serving leaves the side clean *)
-Theorem ends_clean P es e : core_ok P = true -> must_end P e = true -> ended_clean (fst (step P e (runs P es fresh))).
+Theorem ends_clean P hr es e : core_ok P = true -> must_end P e = true -> ended_clean (fst (step P hr e (runs P hr es fresh))).
 Proof.
-  intros HP Hm. set (s := runs P es fresh). assert (I : Inv s) by (apply run_inv; [exact HP|exact inv_fresh]).
-  pose proof HP as HP'. unpack HP'.
+  intros HP Hm. set (s := runs P hr es fresh). assert (I : Inv s) by (apply run_inv; [exact HP|exact inv_fresh]).
+  unpack HP.
   destruct e as [w| |c|c]; cbn [step must_end] in *.
   - now apply do_close_spec.
   - destruct (inv_cases s I) as [(Hr & Hh & Hc)|C].
-    + rewrite Hr. unfold cleanup. rewrite Hc, Hr. cbn. rewrite Hh. repeat split.
+    + rewrite Hr. unfold cleanup. rewrite Hc, Hr, Kf. cbn. rewrite andb_false_r. cbn. rewrite Hh. repeat split.
     + destruct C as (Hc & Hh & Hr & Ho). rewrite Hr. cbn. repeat split; auto.
   - rewrite Hm. set (s0 := {| closed := closed s; hooks := hooks s; has_root := has_root s; chan_open := false |}).
     assert (I0 : Inv s0) by (apply chan_closed_inv; exact I).
-    destruct (do_close P WEof s0) as [s1 r] eqn:E.
+    destruct (do_close P hr WEof s0) as [s1 r] eqn:E.
     assert (C1 : ended_clean s1) by (change s1 with (fst (s1, r)); rewrite <- E; now apply do_close_spec).
     destruct c; cbn [fst]; [exact C1|]. destruct (serve_all_finally_closes P); cbn [fst]; [|exact C1].
     apply do_close_spec; [exact HP|now apply clean_inv].
   - set (s0 := {| closed := closed s; hooks := hooks s; has_root := has_root s; chan_open := false |}).
     assert (I0 : Inv s0) by (apply chan_closed_inv; exact I).
     destruct (serve_dispatch_eof_closes P) eqn:Ed.
-    + destruct (do_close P WEof s0) as [s1 r] eqn:E.
+    + destruct (do_close P hr WEof s0) as [s1 r] eqn:E.
       assert (C1 : ended_clean s1) by (change s1 with (fst (s1, r)); rewrite <- E; now apply do_close_spec).
       destruct c; cbn [fst]; [exact C1|]. destruct (serve_all_finally_closes P); cbn [fst]; [|exact C1].
       apply do_close_spec; [exact HP|now apply clean_inv].
@@ -113,6 +117,19 @@ Qed.
 
 (* F6: when serve does not close on an EOFError escaping _dispatch, a side that meets the failure while serving a callback
    during AsyncResult.wait stays open with its hook never run *)
-Theorem dispatch_eof_refuted P : serve_dispatch_eof_closes P = false ->
-  let s := fst (step P (EDispatchEof InWait) fresh) in closed s = false /\ hooks s = 0.
+Theorem dispatch_eof_refuted P hr : serve_dispatch_eof_closes P = false ->
+  let s := fst (step P hr (EDispatchEof InWait) fresh) in closed s = false /\ hooks s = 0.
 Proof. intros H. cbn. rewrite H. cbn. split; reflexivity. Qed.
+
+(* a raising disconnect hook: unless the clearing sits in a finally, close() on a fresh side leaves it reporting closed with its
+   tables and root still in place - and nothing will ever clear them (close is the identity from then on) *)
+Theorem raising_hook_refuted P w : cleanup_clears_in_finally P = false -> close_checks_closed_first P = true ->
+  close_sets_closed_before_io P = true -> close_cleanup_in_finally P = true ->
+  let s := fst (do_close P true w fresh) in
+  closed s = true /\ has_root s = true /\ forall w', do_close P true w' s = (s, RNone).
+Proof.
+  intros Hf Ka Kb Kc.
+  assert (E : do_close P true w fresh = ({| closed := true; hooks := 1; has_root := true; chan_open := false |}, ROther)).
+  { unfold do_close. rewrite Ka, Kb, Kc. cbn. unfold cleanup. cbn. rewrite Hf. cbn. reflexivity. }
+  rewrite E. cbn. repeat split. intros w'. unfold do_close. rewrite Ka. reflexivity.
+Qed.
